@@ -1,10 +1,16 @@
 (* C17 for InlineDefinedFuns at a use site (Model/InlineRw.v): the beta rule.
    Replacing the call (f a1 .. an) of a defined, non-recursive function by its
    body, in which the formals are replaced SIMULTANEOUSLY by the actuals,
-   preserves the value of the call (Spec/Semantics.v), under a side condition
-   that the mutator does NOT check (finding F19: no guard against capture).
-   Statements only; proofs in Proofs/Rw/InlineSubst.v and
-   Proofs/Closure/InlineClosed.v; the definitions are in Proofs/Rw/InlineSide.v:
+   preserves the value of the call (Spec/Semantics.v), under a side condition.
+   Before the fix of finding F19 the mutator checked nothing of it (no guard
+   against capture); the model now mirrors the fixed smtlib.__instantiate, which
+   returns the node itself if a binder within the body binds a formal again or
+   binds a leaf of an actual (inline_guard).  The theorems with the full side
+   condition inline_side remain; the last section states them with the weaker
+   inline_side_guarded, which lacks the two conjuncts that the guard establishes.
+   Statements only; proofs in Proofs/Rw/InlineSubst.v, Proofs/Rw/InlineGuard.v and
+   Proofs/Closure/InlineClosed.v; the definitions are in Proofs/Rw/InlineSide.v
+   and Proofs/Rw/InlineGuard.v:
 
      formal_ok f         f = (p S ..) with a leaf p
      formal_names d      the names p of the formals of d ([] for a formal of another shape)
@@ -16,9 +22,15 @@
                          name occurs in the body in term positions only (term_pos_only,
                          Proofs/Rw/LetSide.v) and is not bound inside the body; for every
                          name that occurs in the body, no_capture body (its actual).
-                         A name may occur in the actuals: (f b a) for the formals (a b). *)
+                         A name may occur in the actuals: (f b a) for the formals (a b).
+     inline_guard d args the guard of the mutator: a formal, or a leaf of an actual, is bound
+                         by a binder inside the body
+     inline_side_guarded d args
+                         every formal is formal_ok; the names are pairwise distinct; every
+                         name occurs in the body in term positions only (args is not looked at) *)
 From DD Require Import Spec.Semantics Spec.StdReader Model.Rewrites Model.LetRw Model.InlineRw.
-From DD Require Import Proofs.Rw.LetSide Proofs.Rw.InlineSide Proofs.Rw.InlineSubst Proofs.Closure.InlineClosed.
+From DD Require Import Proofs.Rw.LetSide Proofs.Rw.InlineSide Proofs.Rw.InlineSubst Proofs.Rw.InlineGuard.
+From DD Require Import Proofs.Closure.InlineClosed.
 Local Open Scope list_scope.
 
 (* ================= value preservation ================= *)
@@ -38,12 +50,22 @@ Theorem lookup_def_sound : forall defs n d, lookup_def defs n = Some d -> d_name
 Proof. exact lookup_def_inv. Qed.
 Print Assumptions lookup_def_sound.
 
-(* what the mutator proposes: for a call with as many actuals as formals, the substituted body *)
+(* what the mutator proposes: for a call with as many actuals as formals, the substituted body --
+   unless the guard holds (after the fix of F19; before it, the statement had no case distinction) *)
 Theorem instantiate_call : forall d h args,
   forallb formal_ok (d_formals d) = true -> length (d_formals d) = length args ->
-  instantiate d (T (h :: args)) = Some (subst_map (combine (map L (formal_names d)) args) (d_body d)).
+  instantiate d (T (h :: args)) =
+  Some (if inline_guard d args then T (h :: args) else subst_map (combine (map L (formal_names d)) args) (d_body d)).
 Proof. exact instantiate_app. Qed.
 Print Assumptions instantiate_call.
+
+(* the statement as it was before the fix holds for a call that the guard lets pass *)
+Theorem instantiate_call_unguarded : forall d h args,
+  forallb formal_ok (d_formals d) = true -> length (d_formals d) = length args ->
+  inline_guard d args = false ->
+  instantiate d (T (h :: args)) = Some (subst_map (combine (map L (formal_names d)) args) (d_body d)).
+Proof. exact instantiate_app_unguarded. Qed.
+Print Assumptions instantiate_call_unguarded.
 
 (* the beta rule itself *)
 Theorem inline_beta_rule : forall d args rho v,
@@ -130,11 +152,15 @@ Example ex_inline_binder :
   inline_side d_g [lf "7"] = true /\ call_val rho_y d_g [lf "7"] = Some (VI 8).
 Proof. vm_compute. repeat split. Qed.
 
-(* a formal that does not occur in the body: its actual may mention a name bound in the body *)
+(* a formal that does not occur in the body: for inline_side its actual may mention a name bound in
+   the body, and the substituted body has the value of the call.  The guard of the mutator is coarser:
+   it looks at the leaves of ALL actuals and proposes nothing here *)
 Definition d_unused : defn := mk_defn (lit "k") [fm "x"] (ilet [ibd "y" (lf "1")] (lf "y")).
 Example ex_inline_unused_formal :
-  rw_inline [d_unused] (iap "k" [lf "y"]) = Some [ilet [ibd "y" (lf "1")] (lf "y")] /\
-  inline_side d_unused [lf "y"] = true /\ call_val rho_y d_unused [lf "y"] = Some (VI 1).
+  rw_inline [d_unused] (iap "k" [lf "y"]) = Some [] /\ inline_guard d_unused [lf "y"] = true /\
+  subst_map (combine (map L (formal_names d_unused)) [lf "y"]) (d_body d_unused) = ilet [ibd "y" (lf "1")] (lf "y") /\
+  inline_side d_unused [lf "y"] = true /\ call_val rho_y d_unused [lf "y"] = Some (VI 1) /\
+  eval rho_y (ilet [ibd "y" (lf "1")] (lf "y")) = Some (VI 1).
 Proof. vm_compute. repeat split. Qed.
 
 (* the number of actuals differs from the number of formals: nothing is proposed; the last definition counts *)
@@ -145,20 +171,27 @@ Example ex_inline_last_definition :
 Proof. vm_compute. reflexivity. Qed.
 
 (* ================= why the side condition is needed ================= *)
+(* the substituted body, which the mutator proposed before the fix of F19 whatever the binders of the body *)
+Definition beta (d : defn) (args : list sexp) : sexp := subst_map (combine (map L (formal_names d)) args) (d_body d).
+
 (* F19, capture: (define-fun g ((x Int)) Int (let ((y 1)) (+ x y))) and the call (g y) with y = 10:
-   the call has the value 11, the proposal (let ((y 1)) (+ y y)) the value 2 *)
+   the call has the value 11, the substituted body (let ((y 1)) (+ y y)) the value 2.
+   Before the fix that was the proposal; the guard holds and nothing is proposed now *)
 Example cex_inline_capture :
-  exists e', rw_inline [d_g] (iap "g" [lf "y"]) = Some [e'] /\
+  exists e', beta d_g [lf "y"] = e' /\
              e' = ilet [ibd "y" (lf "1")] (iap "+" [lf "y"; lf "y"]) /\
              call_val rho_y d_g [lf "y"] = Some (VI 11) /\ eval rho_y e' = Some (VI 2) /\
-             inline_side d_g [lf "y"] = false.
+             inline_side d_g [lf "y"] = false /\
+             inline_guard d_g [lf "y"] = true /\ rw_inline [d_g] (iap "g" [lf "y"]) = Some [].
 Proof. eexists. vm_compute. repeat split. Qed.
 
-(* ... also through a compound actual: g applied to the product of y and 2 has the value 21, the proposal the value 3 *)
+(* ... also through a compound actual: g applied to the product of y and 2 has the value 21, the substituted body the value 3 *)
 Example cex_inline_capture_compound :
-  exists e', rw_inline [d_g] (iap "g" [iap "*" [lf "y"; lf "2"]]) = Some [e'] /\
+  exists e', beta d_g [iap "*" [lf "y"; lf "2"]] = e' /\
              call_val rho_y d_g [iap "*" [lf "y"; lf "2"]] = Some (VI 21) /\ eval rho_y e' = Some (VI 3) /\
-             inline_side d_g [iap "*" [lf "y"; lf "2"]] = false.
+             inline_side d_g [iap "*" [lf "y"; lf "2"]] = false /\
+             inline_guard d_g [iap "*" [lf "y"; lf "2"]] = true /\
+             rw_inline [d_g] (iap "g" [iap "*" [lf "y"; lf "2"]]) = Some [].
 Proof. eexists. vm_compute. repeat split. Qed.
 
 (* two formals of one name: (define-fun f ((a Int) (a Int)) Int a), (f 1 2): the first one counts
@@ -187,24 +220,28 @@ Example cex_inline_bvlit :
 Proof. vm_compute. repeat split. Qed.
 
 (* a formal that is bound again inside the body: (define-fun g ((x Int)) Int (let ((x 5)) (+ x 1))),
-   (g (+ 1 1)): the binder is destroyed *)
+   (g (+ 1 1)): the substitution destroys the binder; the guard holds, nothing is proposed *)
 Definition d_rebound : defn := mk_defn (lit "g") [fm "x"] (ilet [ibd "x" (lf "5")] (iap "+" [lf "x"; lf "1"])).
 Example cex_inline_rebound :
-  exists e', rw_inline [d_rebound] (iap "g" [iap "+" [lf "1"; lf "1"]]) = Some [e'] /\
+  exists e', beta d_rebound [iap "+" [lf "1"; lf "1"]] = e' /\
              e' = ilet [T [iap "+" [lf "1"; lf "1"]; lf "5"]] (iap "+" [iap "+" [lf "1"; lf "1"]; lf "1"]) /\
              call_val [] d_rebound [iap "+" [lf "1"; lf "1"]] = Some (VI 6) /\ eval [] e' = None /\
-             inline_side d_rebound [iap "+" [lf "1"; lf "1"]] = false.
+             inline_side d_rebound [iap "+" [lf "1"; lf "1"]] = false /\
+             inline_guard d_rebound [iap "+" [lf "1"; lf "1"]] = true /\
+             rw_inline [d_rebound] (iap "g" [iap "+" [lf "1"; lf "1"]]) = Some [].
 Proof. eexists. vm_compute. repeat split. Qed.
 
 (* ... with a variable as the actual the binder is renamed and captures the other occurrences of the
    actual: (define-fun g ((x Int)) Int (let ((x 5)) (+ x y))), (g y) with y = 10 has the value 15, the
-   proposal (let ((y 5)) (+ y y)) the value 10 -- although no leaf of the actual is bound inside the body *)
+   substituted body (let ((y 5)) (+ y y)) the value 10 -- although no leaf of the actual is bound inside the
+   body: it is the first half of the guard (a formal bound again) that refuses this call *)
 Definition d_rebound2 : defn := mk_defn (lit "g") [fm "x"] (ilet [ibd "x" (lf "5")] (iap "+" [lf "x"; lf "y"])).
 Example cex_inline_rebound_value :
-  exists e', rw_inline [d_rebound2] (iap "g" [lf "y"]) = Some [e'] /\
+  exists e', beta d_rebound2 [lf "y"] = e' /\
              e' = ilet [ibd "y" (lf "5")] (iap "+" [lf "y"; lf "y"]) /\
              call_val rho_y d_rebound2 [lf "y"] = Some (VI 15) /\ eval rho_y e' = Some (VI 10) /\
-             no_capture (d_body d_rebound2) (lf "y") = true /\ inline_side d_rebound2 [lf "y"] = false.
+             no_capture (d_body d_rebound2) (lf "y") = true /\ inline_side d_rebound2 [lf "y"] = false /\
+             inline_guard d_rebound2 [lf "y"] = true /\ rw_inline [d_rebound2] (iap "g" [lf "y"]) = Some [].
 Proof. eexists. vm_compute. repeat split. Qed.
 
 (* a formal that is a leaf instead of (p S): the key of the substitution is its first character *)
@@ -220,4 +257,125 @@ Example ex_inline_not_conversely :
   rw_inline [d_unused] (iap "k" [iap "foo" []]) = Some [ilet [ibd "y" (lf "1")] (lf "y")] /\
   inline_side d_unused [iap "foo" []] = true /\
   call_val [] d_unused [iap "foo" []] = None /\ eval [] (ilet [ibd "y" (lf "1")] (lf "y")) = Some (VI 1).
+Proof. vm_compute. repeat split. Qed.
+
+(* ================= after the fix of F19: the guard carries a part of the side condition ================= *)
+
+(* a proposal for the call means that the guard did not hold; with it, the weaker condition is the full one *)
+Theorem rw_inline_guard_gives_side : forall defs e l e' n d args,
+  rw_inline defs e = Some l -> In e' l ->
+  e = T (L n :: args) \/ (e = L n /\ args = []) ->
+  lookup_def defs n = Some d ->
+  inline_side_guarded d args = true -> inline_side d args = true.
+Proof. exact inline_guard_gives_side. Qed.
+Print Assumptions rw_inline_guard_gives_side.
+
+(* ... in two steps *)
+Theorem rw_inline_proposal_unguarded : forall defs e l e' n d args,
+  rw_inline defs e = Some l -> In e' l ->
+  e = T (L n :: args) \/ (e = L n /\ args = []) ->
+  lookup_def defs n = Some d ->
+  forallb formal_ok (d_formals d) = true ->
+  inline_guard d args = false.
+Proof. exact proposal_guard_false. Qed.
+Print Assumptions rw_inline_proposal_unguarded.
+
+Theorem inline_unguarded_side : forall d args,
+  inline_guard d args = false -> inline_side_guarded d args = true -> inline_side d args = true.
+Proof. exact guard_side. Qed.
+Print Assumptions inline_unguarded_side.
+
+(* the weaker condition is weaker *)
+Theorem inline_side_gives_guarded : forall d args, inline_side d args = true -> inline_side_guarded d args = true.
+Proof. exact side_guarded_of_side. Qed.
+Print Assumptions inline_side_gives_guarded.
+
+(* what the guard refuses: a formal, or a leaf of an actual, that is bound inside the body *)
+Theorem inline_guard_inv : forall d args,
+  inline_guard d args = true ->
+  (exists p, In p (formal_names d) /\ mem_sexp (L p) (bound_syms (d_body d)) = true)
+  \/ (exists a, In a args /\ no_capture (d_body d) a = false).
+Proof. exact guard_true_inv. Qed.
+Print Assumptions inline_guard_inv.
+
+(* rw_inline_identity with the weaker side condition: every proposal of the mutator at a use site *)
+Theorem rw_inline_identity_guarded : forall defs e l e' n d args rho v,
+  rw_inline defs e = Some l -> In e' l ->
+  e = T (L n :: args) \/ (e = L n /\ args = []) ->
+  lookup_def defs n = Some d ->
+  inline_side_guarded d args = true ->
+  call_val rho d args = Some v -> eval rho e' = Some v.
+Proof. exact inline_identity_guarded. Qed.
+Print Assumptions rw_inline_identity_guarded.
+
+(* the proposals for a call of a non-recursive definition with formals of the shape (p S ..) *)
+Theorem rw_inline_call_proposals : forall defs n d args,
+  lookup_def defs n = Some d -> is_recursive defs n = false ->
+  forallb formal_ok (d_formals d) = true -> length (d_formals d) = length args ->
+  rw_inline defs (T (L n :: args)) =
+  Some (if inline_guard d args then []
+        else let b := subst_map (combine (map L (formal_names d)) args) (d_body d) in
+             if sexp_eqb b (T (L n :: args)) then [] else [b]).
+Proof. exact rw_inline_call. Qed.
+Print Assumptions rw_inline_call_proposals.
+
+Definition iex (vs : list sexp) (body : sexp) : sexp := T [lf "exists"; T vs; body].
+Definition iall (vs : list sexp) (body : sexp) : sexp := T [lf "forall"; T vs; body].
+Definition rho_q : list (str * value) := [(lit "q", VI 3)].
+
+(* (i) the capture instance of F19: (define-fun g ((p Int)) Bool (exists ((y Int)) (> y p))) and the call
+   (g y): the substituted body would be (exists ((y Int)) (> y y)); nothing is proposed *)
+Definition d_ex : defn := mk_defn (lit "g") [fm "p"] (iex [fm "y"] (iap ">" [lf "y"; lf "p"])).
+Example f19_no_proposal : rw_inline [d_ex] (iap "g" [lf "y"]) = Some [].
+Proof. vm_compute. reflexivity. Qed.
+
+Example f19_no_proposal_why :
+  inline_guard d_ex [lf "y"] = true /\ beta d_ex [lf "y"] = iex [fm "y"] (iap ">" [lf "y"; lf "y"]) /\
+  inline_side_guarded d_ex [lf "y"] = true /\ inline_side d_ex [lf "y"] = false.
+Proof. vm_compute. repeat split. Qed.
+
+(* (ii) a formal that is bound again inside the body:
+   (define-fun f ((x Int)) Bool (forall ((x Int)) (>= SQ 0))) with the product SQ of x and x, and the call (f (- 5)) *)
+Definition d_all : defn :=
+  mk_defn (lit "f") [fm "x"] (iall [fm "x"] (iap ">=" [iap "*" [lf "x"; lf "x"]; lf "0"])).
+Example f19_rebound_no_proposal : rw_inline [d_all] (iap "f" [iap "-" [lf "5"]]) = Some [].
+Proof. vm_compute. reflexivity. Qed.
+
+Example f19_rebound_no_proposal_why :
+  inline_guard d_all [iap "-" [lf "5"]] = true /\
+  beta d_all [iap "-" [lf "5"]]
+  = iall [T [iap "-" [lf "5"]; lf "Int"]] (iap ">=" [iap "*" [iap "-" [lf "5"]; iap "-" [lf "5"]]; lf "0"]) /\
+  inline_side d_all [iap "-" [lf "5"]] = false.
+Proof. vm_compute. repeat split. Qed.
+
+(* (iii) not vacuous: the quantifier of the body binds neither the formal nor a leaf of the actual,
+   (g (+ q 1)) becomes (exists ((y Int)) (> y (+ q 1))) *)
+Example ex_inline_guarded :
+  let a := iap "+" [lf "q"; lf "1"] in
+  rw_inline [d_ex] (iap "g" [a]) = Some [iex [fm "y"] (iap ">" [lf "y"; a])] /\
+  lookup_def [d_ex] (lit "g") = Some d_ex /\
+  inline_guard d_ex [a] = false /\ inline_side_guarded d_ex [a] = true /\ inline_side d_ex [a] = true.
+Proof. vm_compute. repeat split. Qed.
+
+(* ... with a value (eval of Spec/Semantics.v has no quantifiers): the binder of the body is a let,
+   (define-fun g ((x Int)) Int (let ((y 1)) (+ x y))) and the call (g (+ q 1)) with q = 3 *)
+Example ex_inline_guarded_value :
+  let a := iap "+" [lf "q"; lf "1"] in
+  rw_inline [d_g] (iap "g" [a]) = Some [ilet [ibd "y" (lf "1")] (iap "+" [a; lf "y"])] /\
+  lookup_def [d_g] (lit "g") = Some d_g /\ inline_side_guarded d_g [a] = true /\
+  call_val rho_q d_g [a] = Some (VI 5).
+Proof. vm_compute. repeat split. Qed.
+
+Example ex_inline_guarded_applied :
+  eval rho_q (ilet [ibd "y" (lf "1")] (iap "+" [iap "+" [lf "q"; lf "1"]; lf "y"])) = Some (VI 5).
+Proof.
+  apply (rw_inline_identity_guarded [d_g] (iap "g" [iap "+" [lf "q"; lf "1"]]) _ _ (lit "g") d_g
+           [iap "+" [lf "q"; lf "1"]] rho_q (VI 5) (proj1 ex_inline_guarded_value));
+    [left; reflexivity | left; reflexivity | | |]; vm_compute; reflexivity.
+Qed.
+
+(* inline_side_guarded alone, without a proposal, does not give the value: the instances of F19 satisfy it *)
+Example ex_inline_guarded_needs_proposal :
+  inline_side_guarded d_g [lf "y"] = true /\ call_val rho_y d_g [lf "y"] = Some (VI 11) /\
+  eval rho_y (beta d_g [lf "y"]) = Some (VI 2) /\ rw_inline [d_g] (iap "g" [lf "y"]) = Some [].
 Proof. vm_compute. repeat split. Qed.
